@@ -2,10 +2,13 @@
    did not touch.  Proved at the level of the pieces a file is made of: what a
    save writes for a section (header record, data) is what a load of the saved
    bytes reports; the layout step changes no attribute but the offset (objects
-   without segments).  Preservation for whole loaded images with segments
-   (addresses, memory images) is decided by the correspondence run: partial. *)
+   without segments; objects with one segment of automatically addressed members:
+   C05_one_segment_survives_reload).  Preservation for whole loaded images with
+   several segments (addresses, memory images) is decided by the correspondence run: partial. *)
 From ElfioV Require Import Bytes Mem Stream SectionData Strings Elfio Table Loader Layout Writer
-     Load_proofs Data_proofs Codec_proofs Ostream_proofs Reader_proofs Layout_proofs Writer_proofs Roundtrip_proofs.
+     Load_proofs Data_proofs Codec_proofs Ostream_proofs Reader_proofs Layout_proofs Writer_proofs Roundtrip_proofs
+     Segment_proofs Oneseg_proofs Oneseg_writer Oneseg_members Reload_oneseg.
+From Coq Require Import Sorted.
 Local Open Scope N_scope.
 
 Theorem C05_section_header_survives_save_and_load :
@@ -96,6 +99,56 @@ Theorem C05_noseg_data_survives :
       s_data s1 = Some (firstnN b (sh_size s) ++ [0]).
 Proof. exact noseg_data_read_back. Qed.
 Print Assumptions C05_noseg_data_survives.
+
+(* objects with ONE segment of automatically addressed, non-empty allocated data members plus sections outside it
+   (the class of C03_one_segment_saved_file / C04_layout_with_one_segment), end to end: the file save() writes, loaded
+   again.  The loop of load_sections over the saved section header table reports every section with exactly the header
+   fields the saved object has (name index, type, flags, address, offset, size, link, info, alignment, entry size), in
+   order; the loop of load_segments over the saved program header table then reports ONE segment with the saved type,
+   flags, offset, virtual and physical address, file and memory size and alignment, and - the membership pass being run
+   on the reloaded sections - with the member list the segment was saved with (listed in index order, as the loader
+   produces it).  Side conditions on the saved object (record fields within their widths, no wrap of the segment's
+   memory range) are stated on the object the layout produced. *)
+Theorem C05_one_segment_survives_reload :
+  forall junk el h0 g bound ms,
+    let idxs := g_sections g in
+    let align := if 0 <? p_align g then p_align g else 1 in
+    let secs := el_secs el in
+    let pos0 := e_ehsize h0 + e_phentsize h0 in
+    el_hdr el = Some h0 -> el_segs el = [g] -> lenN secs < 2 ^ 16 ->
+    lenN idxs < 2 ^ 16 -> idxs <> [] -> g_offset_set g = false -> p_type g <> PT_PHDR -> NoDup idxs ->
+    Forall2 (fun i s => nth_optN secs i = Some s) idxs ms ->
+    Forall auto_member ms -> Forall (fun s => sh_addralign s <= p_align g) ms ->
+    bound <= 2 ^ 62 -> Forall (fun s => bound <= 2 ^ xw (s_cls s)) secs -> bound <= 2 ^ xw (g_cls g) ->
+    bound <= 2 ^ xw (e_cls h0) -> p_align g < 2 ^ 63 ->
+    p_vaddr g + pos0 + align + mbudget ms + budget secs + 16 + e_shentsize h0 * lenN secs < bound ->
+    indexed_from 0 secs ->
+    (forall s, In s secs -> s_index s = 0 -> csize s = 0) ->
+    (forall s b, In s secs -> s_data s = Some b -> sh_size s <= lenN b) ->
+    lenN (e_ident h0) = 16 -> e_ehsize h0 = ehdr_size (e_cls h0) ->
+    (forall s, In s secs -> shdr_size (s_cls s) <= e_shentsize h0) ->
+    phdr_size (g_cls g) <= e_phentsize h0 -> g_index g = 0 -> e_shentsize h0 = shdr_size (e_cls h0) ->
+    p_type g <> PT_TLS -> Forall (fun s => sh_size s <> 0) ms ->
+    (forall j s, ~ In j idxs -> nth_optN secs j = Some s ->
+       is_tls s \/ (is_alloc s /\ sh_addr s < p_vaddr g) \/ (~ is_alloc s /\ (s_index s = 0 -> sh_offset s < pos0))) ->
+    secs <> [] ->
+    exists el' h' g',
+      layout el = Ok (el', true) /\ el_hdr el' = Some h' /\ el_segs el' = [g'] /\
+      let plan := oneseg_plan h' (el_secs el') (segments_plan (e_enc h') h' [g']) in
+      (plan_small 0 plan -> phdr_wf g' ->
+       (forall s, In s (el_secs el') -> s_cls s = e_cls h' /\ shdr_wf s) ->
+       p_vaddr g + p_memsz g' < 2 ^ 64 -> StronglySorted N.lt idxs ->
+       forall k f,
+       let file := os_bytes (exec_plan (new_ostream None) plan) in
+       exists st1 loaded st2 r,
+         load_sections_loop junk (length secs) (open_istream k file) [] (e_cls h') (e_enc h') (e_shoff h') (e_shentsize h')
+                            0 (e_shnum h') true [] [] = Ok (st1, rev loaded, []) /\
+         Forall2 same_hdr (el_secs el') loaded /\
+         load_segments_loop (S f) st1 [] loaded (e_enc h') (g_cls g') (e_phoff h') (e_phentsize h') 0 (e_phnum h') true [] [] =
+           Ok (st2, [r], true, []) /\
+         same_phdr g' r /\ g_sections r = idxs).
+Proof. exact oneseg_reload. Qed.
+Print Assumptions C05_one_segment_survives_reload.
 
 (* sections flagged compressed, objects with the (modelled) compression interface: what the writer stores for such
    a section is the interface's deflate of its data, and what an eager load hands out is the interface's inflate of the
